@@ -242,6 +242,35 @@ type Capture struct {
 	owner   map[PktRef]int
 }
 
+// MaxSilence is the longest time one conversation stays silent from the importer's point of view: the time between
+// two consecutive packets of the conversation in capture order, where a datagram that travels in two fragments
+// counts at the time its later fragment is captured (the earlier fragment alone is nothing the importer can
+// attribute to a flow).
+func (c *Capture) MaxSilence() time.Duration {
+	last := map[int]time.Time{}
+	seenFrag := map[[2]int]bool{}
+	var max time.Duration
+	for _, p := range c.Packets {
+		if p.Conv < 0 {
+			continue
+		}
+		if p.FragPart != 0 {
+			k := [2]int{p.Conv, int(p.FragID)}
+			if !seenFrag[k] {
+				seenFrag[k] = true
+				continue
+			}
+		}
+		if t, ok := last[p.Conv]; ok {
+			if d := p.TS.Sub(t); d > max {
+				max = d
+			}
+		}
+		last[p.Conv] = p.TS
+	}
+	return max
+}
+
 // SplitDatagrams counts the fragmented datagrams whose two fragments lie in different capture files.
 func (c *Capture) SplitDatagrams() int {
 	file := map[[2]int]int{}
